@@ -324,12 +324,13 @@ def parseA64Reg (env : Env) (s : Str) : Option POp := do
     let cnt ← (if el.length = 1 then some 0 else parseDec el.dropLast : Option Nat)
     if !(letter = 'b' ∨ letter = 'h' ∨ letter = 's' ∨ letter = 'd') then none
     -- `vN` names the vector register whose arrangement follows; its width is fixed by count·element size
-    match r with
-    | 'v' :: ds =>
-      let id ← if ds.all Char.isDigit then parseDec ds else none
-      if id ≥ 32 then none
-      return .reg (.phys 0 id) (some (cnt, letter)) eidx
-    | _ =>
+    let physId : Option Nat :=
+      match r with
+      | 'v' :: ds => if ds.all Char.isDigit ∧ !ds.isEmpty then (parseDec ds).bind fun id => if id < 32 then some id else none else none
+      | _ => none
+    match physId with
+    | some id => return .reg (.phys 0 id) (some (cnt, letter)) eidx
+    | none =>
       let i ← virtIndexByName env r
       return .reg (.virt i none) (some (cnt, letter)) eidx
   | none =>
@@ -497,6 +498,13 @@ def parseX86Inst (env : Env) (s : Str) : Option PInst := do
 
 def condNames : List String := ["al", "na", "eq", "ne", "hs", "lo", "mi", "pl", "vs", "vc", "hi", "ls", "ge", "lt", "gt", "le"]
 
+/-- architectural syntax: `[base], offset` is ONE operand (post-index); a closed bracket followed by another item is read that way -/
+def mergePostIndex : List Str → List Str
+  | a :: b :: rest =>
+    if a.head? = some '[' ∧ a.getLast? = some ']' then (a ++ ", ".toList ++ b) :: mergePostIndex rest
+    else a :: mergePostIndex (b :: rest)
+  | l => l
+
 def parseA64Inst (env : Env) (s : Str) : Option PInst := do
   let (mn, rest) := match splitAt? ' ' s with | some (a, b) => (a, b) | none => (s, [])
   let (m, cond) ←
@@ -505,7 +513,7 @@ def parseA64Inst (env : Env) (s : Str) : Option PInst := do
      | none => some (mn, none) : Option (Str × Option Str))
   let mut pi : PInst := { mnemonic := m, cond := cond }
   if rest.isEmpty then return pi
-  for ch in (splitTop ',' rest).map trimL do
+  for ch in mergePostIndex ((splitTop ',' rest).map trimL) do
     let op ← parseA64Op env ch
     pi := { pi with ops := pi.ops ++ [{ op := op }] }
   return pi
@@ -597,6 +605,16 @@ def expectedRounding (options : Nat) : Option String :=
 
 def operandsGiven (ops : List Operand) : List Operand := ops.takeWhile (· ≠ Operand.none)
 
+/-- the AArch64 assembler emits (and logs) the unscaled-offset form when the offset does not fit the scaled one:
+    `ldr*` → `ldur*`, `str*` → `stur*` -/
+def unscaledName : Str → Option Str
+  | 'l' :: 'd' :: 'r' :: rest => some ('l' :: 'd' :: 'u' :: 'r' :: rest)
+  | 's' :: 't' :: 'r' :: rest => some ('s' :: 't' :: 'u' :: 'r' :: rest)
+  | _ => none
+
+def nameAgrees (emitted : Bool) (given : Option Str) (printed : Str) : Bool :=
+  given == some printed || (emitted && (given.bind unscaledName) == some printed)
+
 /-- `addedPrefixes`: option words the assembler itself may add to what was requested (it records the form it chose) -/
 def instAgrees (env : Env) (flags instId options : Nat) (extra : ExtraReg) (ops : List Operand) (addedPrefixes : List String) (pi : PInst) : Bool :=
   let ops := operandsGiven ops
@@ -604,13 +622,14 @@ def instAgrees (env : Env) (flags instId options : Nat) (extra : ExtraReg) (ops 
   | .a64 =>
     let realId := instId % 65536
     let cc := (instId / 134217728) % 16
-    headerName .a64 realId == some pi.mnemonic && pi.aliases.isEmpty && pi.prefixes.isEmpty && pi.rounding.isNone &&
+    nameAgrees (!addedPrefixes.isEmpty) (headerName .a64 realId) pi.mnemonic && pi.aliases.isEmpty && pi.prefixes.isEmpty && pi.rounding.isNone &&
     pi.cond == (if cc = 0 then none else (condNames[cc]?).map String.toList) &&
     pi.ops.length == ops.length && (ops.zip pi.ops).all fun (g, r) => opAgrees env g r.op && r.kmask.isNone && !r.zeroing && r.bcast == 0
   | arch =>
     let want := expectedPrefixes options
     headerName arch instId == some pi.mnemonic &&
-    (if hasBit flags ffShowAliases then pi.aliases == headerAliases arch instId else pi.aliases.isEmpty) &&
+    -- every alternate spelling shown must be an alias the header declares for this very instruction
+    (if hasBit flags ffShowAliases then pi.aliases.all (headerAliases arch instId).contains else pi.aliases.isEmpty) &&
     (pi.prefixes == want || (pi.prefixes.filter (!addedPrefixes.contains ·)) == want.filter (!addedPrefixes.contains ·)) &&
     pi.cond.isNone &&
     (match pi.repReg with
@@ -720,6 +739,6 @@ def monLogLine (env : Env) (flags instId options : Nat) (extra : ExtraReg) (ops 
                | none => false)
         | _ => (body, false)
       else (body, !body.contains ';')
-    okComment && okCol && monInstruction env flags instId options extra ops ["short", "long"] (trimR (trimL instText))
+    okComment && okCol && monInstruction env flags instId options extra ops ["short", "long", "rex"] (trimR (trimL instText))
 
 end AsmjitVerif.FormatText
